@@ -59,17 +59,18 @@ def rules(ctx, db):
             rf = indirect_calls(c, "run_future")
             if not rf:
                 continue
-            fr = [bb for bb, _ in calls(c, r"State::finish_running$")]
-            ctx.ob("R1", "finish_running-after-ready", len(rf) == 1 and len(fr) == 1 and
-                   guarded_by_bool(c, fr[0], r"core::task::poll::Poll::<T>::is_ready$", True) is not None and c.cfg.dominates(rf[0][0], fr[0]),
+            from ..util import guarded_everywhere, ordered_everywhere
+            FR = r"State::finish_running$"
+            WK = r"^core::task::wake::Waker::wake_by_ref$"
+            fre = Summaries(db, FR).event_blocks(c, "may")
+            n1, bad1 = guarded_everywhere(db, c, FR, r"core::task::poll::Poll::<T>::is_ready$", True)
+            ctx.ob("R1", "finish_running-after-ready", len(rf) == 1 and n1 == 1 and not bad1 and bool(fre) and
+                   all(c.cfg.dominates(rf[0][0], b) for b in fre),
                    "COMPLETED|HAS_RESULT is published only after run_future returned Ready (result already stored)", c)
-            wk = Summaries(db, r"^core::task::wake::Waker::wake_by_ref$").event_blocks(c, "may")
-            okw = bool(wk) and bool(fr)
-            for w in wk:
-                if not (c.cfg.dominates(fr[0], w) and guarded_by_bool(c, w, r"Snapshot::has_waker$", True) is not None and
-                        guarded_by_bool(c, w, r"Snapshot::is_setting_waker$", False) is not None):
-                    okw = False
-            ctx.ob("R1", "joiner-woken-iff-waker-set", okw,
+            n2, bad2 = ordered_everywhere(db, c, FR, WK)
+            n3, bad3 = guarded_everywhere(db, c, WK, r"Snapshot::has_waker$", True)
+            n4, bad4 = guarded_everywhere(db, c, WK, r"Snapshot::is_setting_waker$", False)
+            ctx.ob("R1", "joiner-woken-iff-waker-set", n2 >= 1 and not bad2 and n3 >= 1 and not bad3 and n4 >= 1 and not bad4,
                    "the join handle's waker is used after finish_running, only if HAS_WAKER and not inside SETTING_WAKER", c)
     rfu = [f for f in db.fns.values() if re.search(r"^compio_executor::task::TaskAlloc::<F>::run_future$", f.name)]
     if not rfu:
